@@ -21,7 +21,7 @@ import threading
 import time
 import uuid
 
-from .. import core, mdibops
+from .. import c19_wire, core, mdibops
 from ..mdibharness import FIXTURES, World
 
 MODULE = 'vf.props.c19'
@@ -59,6 +59,21 @@ def _install_audit():
     sys.addaudithook(hook)
 
 
+def _refparam_hook(async_mgr):
+    """provider components with the reference-parameter dispatching subscription managers (the default dispatches on the path)."""
+    def hook(comps):
+        from sdc11073.provider.subscriptionmgr import ReferenceParamSubscriptionsManager
+        from sdc11073.provider.subscriptionmgr_async import SubscriptionsManagerReferenceParamAsync
+        cls = SubscriptionsManagerReferenceParamAsync if async_mgr else ReferenceParamSubscriptionsManager
+        for name in list(comps.subscriptions_manager_class):
+            comps.subscriptions_manager_class[name] = cls
+    return hook
+
+
+CONSUMER_ALT = 'vfconsumer.example'
+PROVIDER_KINDS = ('subscription_manager', 'hosted_endpoint', 'wsdl_location', 'xaddrs')
+
+
 def w_loopback(ctx: core.Ctx, arg):
     provider_tls, consumer_mode, async_mgr, alt_host = arg['provider_tls'], arg['consumer'], arg['async_mgr'], arg['alt_host']
     label = dict(arg)
@@ -84,7 +99,8 @@ def _w_loopback(ctx, arg, provider_tls, consumer_mode, async_mgr, alt_host, labe
     if alt_host:
         socket.gethostbyname = lambda h: '127.0.0.1' if h == 'vfhost.example' else orig_gethost(h)
     try:
-        world = World('70041_MDIB_Final.xml', async_mgr=async_mgr, role_provider='no_waveform', ssl_context_container=pcont)
+        world = World('70041_MDIB_Final.xml', async_mgr=async_mgr, role_provider='no_waveform', ssl_context_container=pcont,
+                      components_hook=_refparam_hook(async_mgr) if arg.get('dispatch') == 'refparam' else None)
         if alt_host:
             world.provider._alternative_hostname = 'vfhost.example'
     finally:
@@ -93,6 +109,29 @@ def _w_loopback(ctx, arg, provider_tls, consumer_mode, async_mgr, alt_host, labe
     expect_connect_ok = (provider_tls and consumer_mode != 'none') or (not provider_tls and consumer_mode != 'enforced')
     consumer = None
     outcome = 'ok'
+    rng = ctx.rng('c19', repr(sorted(arg.items())))
+    # ---- raw subscriber: everything a subscriber controls in its request is varied; the provider's answers (and the connections it opens to
+    # the sinks afterwards) are judged by the monitors below like all other traffic
+    raw = None
+    if arg.get('raw', True):
+        try:
+            raw = c19_wire.RawSubscriber(net, f'127.0.0.1:{world.provider_server.server_port}', world.provider_address.replace('vfhost.example', '127.0.0.1'))
+            if raw.discover() is None:
+                raise RuntimeError('no hosted service address in the TransferGet response')
+            combos = list(c19_wire.DIRECTED)
+            for _ in range(ctx.pick(3, 12)):
+                combos.append((rng.choice(c19_wire.TO_KINDS), rng.choice(c19_wire.HOST_KINDS), rng.choice(c19_wire.SINK_KINDS), rng.choice(c19_wire.END_KINDS)))
+            for combo in combos:
+                e, found = raw.subscribe(*combo)
+                mgr = [a for k, a in found if k == 'subscription_manager']
+                ctx.count('loopback.raw.subscribe_requests')
+                ctx.count(f'loopback.raw.subscribe.to_{combo[0]}.{"granted" if mgr else "status%s" % e.status}')
+                if mgr:
+                    ctx.count('loopback.raw.subscribe_responses' + ('.tls_provider' if provider_tls else '.plain_provider'))
+                    ctx.case(('raw-subscribe', provider_tls, async_mgr, arg.get('dispatch', 'path')) + combo)
+        except Exception as ex:  # noqa: BLE001
+            ctx.count('loopback.raw.failed')
+            label['raw_exception'] = repr(ex)[:200]
     try:
         from sdc11073.consumer.consumerimpl import SdcConsumer, default_components_factory
         from sdc11073.definitions_sdc import SdcV1Definitions
@@ -101,8 +140,13 @@ def _w_loopback(ctx, arg, provider_tls, consumer_mode, async_mgr, alt_host, labe
         comps.soap_client_class = loopback.mk_soap_client_class(net)
         from ..mdibharness import _SyncDispatcher
         comps.action_dispatcher_class = _SyncDispatcher
+        if arg.get('dispatch') == 'refparam':
+            from sdc11073.consumer.subscription import ClientSubscriptionManagerReferenceParams
+            comps.subscription_manager_class = ClientSubscriptionManagerReferenceParams
         scheme = 'https' if ccont is not None and (consumer_mode == 'enforced' or provider_tls) else 'http'
         server = net.new_server(scheme=scheme)
+        if alt_host:
+            net.servers[f'{CONSUMER_ALT}:{server.server_port}'] = server  # the consumer's sink under its alternative host name
         address = world.provider_address.replace('vfhost.example', '127.0.0.1')
         if arg.get('offsite_wsdl'):
             # a peer may advertise its WSDL at another host:port (valid DPWS): whatever the consumer does with that location, it opens no
@@ -114,16 +158,17 @@ def _w_loopback(ctx, arg, provider_tls, consumer_mode, async_mgr, alt_host, labe
                     new, n = rx_loc.subn(rb'\1' + f'{_scheme}://{OFFSITE}:81'.encode(), entry.response)
                     if n:
                         entry.response = new
+                        entry.extra['vf_planted'] = True
                         ctx.count('loopback.offsite_wsdl_locations_planted', n)
             net.observers.append(rewrite)
         consumer = SdcConsumer(address, SdcV1Definitions, ssl_context_container=ccont, validate=True, components=comps,
-                               force_ssl_connect=(consumer_mode == 'enforced'), epr=uuid.UUID(int=0x7000))
+                               force_ssl_connect=(consumer_mode == 'enforced'), epr=uuid.UUID(int=0x7000),
+                               alternative_hostname=CONSUMER_ALT if alt_host else None)
         consumer.start_all(shared_http_server=server)
         from sdc11073.mdib.consumermdib import ConsumerMdib
         cm = ConsumerMdib(consumer)
         cm.init_mdib()
         # traffic: transactions, operation, renew, status, stop
-        rng = ctx.rng('c19', repr(sorted(arg.items())))
         memo = {}
         for _ in range(5):
             mdibops.apply_op(world.mdib, mdibops.gen_op(rng, world.mdib, memo, {'metric': 1, 'alert': 1, 'context': 1}), memo)
@@ -141,6 +186,16 @@ def _w_loopback(ctx, arg, provider_tls, consumer_mode, async_mgr, alt_host, labe
             sub.renew(60)
             sub.get_status()
             ctx.count('loopback.renew_getstatus')
+        # the device endpoint as WS-Discovery gets it (Hello) and as a directed Probe is answered
+        try:
+            from sdc11073.location import SdcLocation
+            world.provider.set_location(SdcLocation(fac='vf', poc='c19', bed='b1'))
+            consumer.send_probe()
+            ctx.count('loopback.directed_probe')
+        except Exception:  # noqa: BLE001
+            ctx.count('loopback.directed_probe.failed')
+        if consumer_mode == 'enforced' and provider_tls:
+            _midsession_faults(ctx, net, world, consumer, label)
         if consumer_mode == 'enforced':
             # a peer may hand out endpoints on another host:port with any scheme (subscription manager, hosted service EPRs):
             # the client an enforced consumer uses for them must still carry its TLS client context
@@ -190,10 +245,22 @@ def _w_loopback(ctx, arg, provider_tls, consumer_mode, async_mgr, alt_host, labe
                 consumer.stop_all(unsubscribe=False)
             except Exception:  # noqa: BLE001
                 pass
-        world.provider.stop_all(send_subscription_end=True)
     except Exception as ex:  # noqa: BLE001
         outcome = f'{type(ex).__name__}'
         label['exception'] = repr(ex)[:200]
+    try:
+        if raw is not None:
+            # reports for the raw subscriptions (again, in case the consumer session above did not get that far), then the provider goes down:
+            # SubscriptionEnd to every EndTo / NotifyTo
+            memo2 = {}
+            for _ in range(2):
+                mdibops.apply_op(world.mdib, mdibops.gen_op(rng, world.mdib, memo2, {'metric': 1, 'alert': 1}), memo2)
+        world.provider.stop_all(send_subscription_end=True)
+        if raw is not None:
+            ctx.count('loopback.raw.messages_received_by_sinks', raw.received())
+    except Exception as ex:  # noqa: BLE001
+        ctx.count('loopback.provider_stop_failed')
+        label['stop_exception'] = repr(ex)[:200]
     finally:
         import socket as _s
         _s.gethostbyname = orig_gethost
@@ -202,34 +269,68 @@ def _w_loopback(ctx, arg, provider_tls, consumer_mode, async_mgr, alt_host, labe
     provider_port = world.provider_server.server_port
     consumer_port = server.server_port if consumer is not None else None
     # ---- monitor 1: URLs on the wire ------------------------------------------------------------
-    n_urls = 0
+    # (a) every host:port with a scheme anywhere in the bytes (port = an endpoint of this run); (b) every element that names a transport address
+    # of the sender of the message (whatever host:port it names).  Requests of the raw subscriber are harness input: only their responses count;
+    # responses the harness rewrote (off-site WSDL location) are not judged structurally.
+    n_urls = n_struct = 0
     for e in net.log:
+        to_provider = e.netloc.endswith(f':{provider_port}')
+        is_raw = bool(e.extra.get('vf_raw'))
         for which, data in (('request', e.body), ('response', e.response)):
-            if not data:
+            if not data or (is_raw and which == 'request'):
                 continue
-            for m in RX_URL.finditer(data):
-                scheme, host, port = m.group(1).decode(), m.group(2).decode(), int(m.group(3))
+            for m in c19_wire.RX_URL.finditer(data):
+                scheme, host, port = m.group(1).decode().lower(), m.group(2).decode(), int(m.group(3))
                 if port == provider_port:
                     n_urls += 1
                     if provider_tls and scheme != 'https':
                         ctx.witness('url.provider_endpoint_advertised_plaintext', 'a provider configured with TLS advertises one of its endpoints with http',
-                                    {**label, 'url': m.group(0).decode(), 'path': e.path, 'which': which, 'context': data[max(0, m.start() - 120):m.end() + 40]})
-                elif port == consumer_port:
+                                    {**label, 'url': m.group(0).decode(), 'path': e.path, 'which': which, 'raw': e.extra.get('vf_raw'),
+                                     'context': data[max(0, m.start() - 120):m.end() + 40]})
+                elif port == consumer_port and not is_raw:
                     n_urls += 1
                     if consumer_mode == 'enforced' and scheme != 'https':
                         ctx.witness('url.consumer_endpoint_advertised_plaintext', 'a consumer with enforced TLS advertises NotifyTo / EndTo with http',
                                     {**label, 'url': m.group(0).decode(), 'path': e.path, 'which': which, 'context': data[max(0, m.start() - 120):m.end() + 40]})
+            if e.extra.get('vf_planted') and which == 'response':
+                continue
+            sender = ('consumer' if which == 'request' else 'provider') if to_provider else ('provider' if which == 'request' else 'consumer')
+            for kind, adr in c19_wire.transport_addresses(data) or ():
+                if sender == 'provider' and kind in PROVIDER_KINDS:
+                    n_struct += 1
+                    ctx.count(f'loopback.addresses.{kind}')
+                    if provider_tls and c19_wire.scheme_of(adr) != 'https':
+                        ctx.witness(f'url.provider_address_not_https.{kind}', f'a provider configured with TLS advertises its {kind} address without https',
+                                    {**label, 'address': adr, 'path': e.path, 'which': which, 'raw': e.extra.get('vf_raw'), 'request_headers': e.headers if is_raw else None,
+                                     'request': (e.body or b'')[:700] if is_raw else None})
+                elif sender == 'consumer' and kind in ('notify_to', 'end_to'):
+                    n_struct += 1
+                    ctx.count(f'loopback.addresses.{kind}')
+                    if consumer_mode == 'enforced' and c19_wire.scheme_of(adr) != 'https':
+                        ctx.witness(f'url.consumer_address_not_https.{kind}', f'a consumer with enforced TLS advertises its {kind} address without https',
+                                    {**label, 'address': adr, 'path': e.path})
+    for _epr, _types, _scopes, x_addrs in world.wsd.published:
+        for adr in x_addrs:
+            n_struct += 1
+            ctx.count('loopback.addresses.xaddrs_published')
+            if provider_tls and c19_wire.scheme_of(adr) != 'https':
+                ctx.witness('url.provider_address_not_https.xaddrs', 'a provider configured with TLS hands an xAddr without https to WS-Discovery', {**label, 'address': adr})
     ctx.count('loopback.urls_scanned', n_urls)
+    ctx.count('loopback.addresses_checked', n_struct)
     # ---- monitor 2: connections --------------------------------------------------------------
+    sink_ports = raw.ports if raw is not None else set()
     for netloc, sslctx in net.connections:
         port = int(netloc.rsplit(':', 1)[1])
         ctx.count('loopback.connections_recorded')
         if port == provider_port and consumer_mode == 'enforced':
             if sslctx is None or (ccont is not None and sslctx is not ccont.client_context):
                 ctx.witness('connect.consumer_plaintext', 'a consumer with enforced TLS opened a connection without its TLS client context', {**label, 'netloc': netloc})
-        if port == consumer_port and provider_tls:
+        if (port == consumer_port or port in sink_ports) and provider_tls:
+            if port in sink_ports:
+                ctx.count('loopback.raw.sink_connections')
             if sslctx is None or sslctx is not pcont.client_context:
-                ctx.witness('connect.provider_plaintext', 'a provider configured with TLS opened a connection without its TLS client context', {**label, 'netloc': netloc})
+                ctx.witness('connect.provider_plaintext', 'a provider configured with TLS opened a connection without its TLS client context',
+                            {**label, 'netloc': netloc, 'to': 'raw subscriber sink (NotifyTo / EndTo as given in the Subscribe)' if port in sink_ports else 'consumer'})
     if consumer_mode == 'enforced' and not provider_tls and outcome == 'ok':
         ctx.witness('connect.enforced_fallback', 'a consumer with enforced TLS talked to a plaintext provider', label)
     if expect_connect_ok and outcome != 'ok':
@@ -240,6 +341,64 @@ def _w_loopback(ctx, arg, provider_tls, consumer_mode, async_mgr, alt_host, labe
         world.stop()
     except Exception:  # noqa: BLE001
         pass
+
+
+def _reconnect(ctx, consumer):
+    """what an application does after a connection error: a soap client stays closed until connect() is called again."""
+    for client in list(consumer._soap_clients.values()):
+        if client.is_closed():
+            try:
+                client.connect()
+                ctx.count('loopback.midsession_fault.reconnects')
+            except Exception:  # noqa: BLE001
+                ctx.count('loopback.midsession_fault.reconnect_failed')
+
+
+def _midsession_faults(ctx, net, world, consumer, label):
+    """faults after the session is up: a TLS error / a reset while an operation is invoked, the MDIB is read, a subscription is renewed; more
+    traffic follows each.  What the consumer does about them is seen by the connection monitor (every connection it creates is recorded)."""
+    import ssl as _ssl
+    provider_netloc = f'127.0.0.1:{world.provider_server.server_port}'
+    from ..loopback import Raise
+    armed = {}
+
+    def policy(entry):
+        if armed and entry.netloc == provider_netloc and armed['match'] in (entry.raw_body or b''):
+            exc = armed['exc']
+            armed.clear()
+            ctx.count('loopback.midsession_faults_injected')
+            return Raise(exc)
+        return None
+    old_policy, net.policy = net.policy, policy
+    try:
+        get = consumer.client('Get')
+        for match, exc, call in ((b'GetMdib', _ssl.SSLError(1, '[SSL: TLSV1_ALERT_INTERNAL_ERROR] loop-back: injected'), get.get_mdib),
+                                 (b'GetMdib', ConnectionResetError('loop-back: injected reset'), get.get_mdib),
+                                 (b'GetMdState', _ssl.SSLEOFError(8, 'loop-back: injected EOF'), get.get_md_state)):
+            armed.update(match=match, exc=exc)
+            try:
+                call()
+                ctx.count('loopback.midsession_fault.call_survived')
+            except Exception:  # noqa: BLE001
+                ctx.count('loopback.midsession_fault.call_failed')
+            armed.clear()
+            _reconnect(ctx, consumer)
+            try:
+                call()  # the consumer goes on
+                ctx.count('loopback.midsession_fault.next_call_ok')
+            except Exception:  # noqa: BLE001
+                ctx.count('loopback.midsession_fault.next_call_failed')
+        subs = list(consumer._subscription_mgr.subscriptions.values())
+        if subs:
+            armed.update(match=b'eventing/Renew', exc=_ssl.SSLError(1, '[SSL: WRONG_VERSION_NUMBER] loop-back: injected'))
+            subs[-1].renew(60)
+            armed.clear()
+            _reconnect(ctx, consumer)
+            for sub in subs:
+                sub.renew(60)
+                ctx.count('loopback.midsession_fault.renew_after_fault')
+    finally:
+        net.policy = old_policy
 
 
 # ------------------------------------------------------------------------------------------------
